@@ -414,6 +414,43 @@ def emit_type(file, kind, name, rules):
             i = j + 1
         if drop:
             raise AnchorLost('T11: field(s) %s not found in %s' % (sorted(drop), name))
+    if 'T11' in rules and it.body_open is None:
+        # tuple struct `struct X<..>(T0, T1) where ..;`: "T11(0=Type)" replaces the type of positional field 0
+        want = {}
+        for x in rules['T11']:
+            k_, _, v_ = x.partition('=')
+            want[k_.strip()] = v_.strip()
+        j = it.kw + 2
+        if toks[j][1] == '<':
+            j = skip_angle(toks, j)
+        if toks[j][1] != '(':
+            raise AnchorLost('T11: %s is not a tuple struct' % name)
+        e_ = match_close(toks, j)
+        idx = 0
+        fs = j + 1
+        q = j + 1
+        while q <= e_:
+            if q == e_ or toks[q][1] == ',':
+                if str(idx) in want and fs < q:
+                    z = fs
+                    while toks[z][1] == 'pub':
+                        z += 1
+                        if toks[z][1] == '(':
+                            z = match_close(toks, z) + 1
+                    ed.replace(toks[z][2], toks[q - 1][3], want.pop(str(idx)))
+                idx += 1
+                fs = q + 1
+                q += 1
+                continue
+            if toks[q][1] == '<':
+                q = skip_angle(toks, q)
+                continue
+            if toks[q][1] in ('(', '[', '{'):
+                q = match_close(toks, q) + 1
+                continue
+            q += 1
+        if want:
+            raise AnchorLost('T11: positional field(s) %s not found in %s' % (sorted(want), name))
     text = ed.render()
     pre = ''
     for r in rules.get('ATTR', []):
@@ -617,12 +654,16 @@ def emit_fn(spec, impl_item, linemap_cb):
     names = t3_names(rules)
     if names != 'none' and toks[it.kw + 2][1] == '<':
         erase_bounds_in_generics(toks, it.kw + 2, names, sed)
+    t4name = (rules.get('T4') or ['self'])[0] if 'T4' in rules else None
     if 'T4' in rules:
-        # (mut self, ...) -> (self, ...)
-        if toks[p + 1][1] == 'mut' and toks[p + 2][1] == 'self':
-            sed.replace(toks[p + 1][2], toks[p + 2][2], '')
-        else:
-            raise AnchorLost('T4: fn %s does not take `mut self`' % spec.name)
+        # (mut self, ...) -> (self, ...); T4(k): the same binding-mode desugaring for the parameter `mut k`
+        hit4 = False
+        for z in range(p + 1, pe):
+            if toks[z][1] == 'mut' and toks[z + 1][1] == t4name and toks[z - 1][1] in ('(', ','):
+                sed.replace(toks[z][2], toks[z + 1][2], '')
+                hit4 = True
+        if not hit4:
+            raise AnchorLost('T4: fn %s does not take `mut %s`' % (spec.name, t4name))
     if 'T10' in rules:
         # param `other: T` -> `other: &FiniteDomain`; drop generic <T: Borrow<FiniteDomain>>
         g = it.kw + 2
@@ -762,8 +803,8 @@ def emit_fn(spec, impl_item, linemap_cb):
         for z in range(ba + 1, bb):
             if z in replaced_tok:
                 continue   # inside a T12/T13 rewrite: the replacement text is written with `self_` already
-            if toks[z][0] == 'ident' and toks[z][1] == 'self':
-                bed.replace(toks[z][2], toks[z][3], 'self_')
+            if toks[z][0] == 'ident' and toks[z][1] == t4name:
+                bed.replace(toks[z][2], toks[z][3], t4name + '_')
     if 'T14' in rules:
         gty14 = {'Goal': 'Goal<U, E>', 'DFSGoal': 'DFSGoal<U, E>'}[rules['T14'][0]]
         n14 = 0
@@ -824,7 +865,7 @@ def emit_fn(spec, impl_item, linemap_cb):
     body = bed.render()
     pro = ''
     if 'T4' in rules:
-        pro += '\n%s let mut self_ = self; %s' % (MARK_A, MARK_B)
+        pro += '\n%s let mut %s_ = %s; %s' % (MARK_A, t4name, t4name, MARK_B)
     if spec.prologue:
         pro += block(spec.prologue, '%s#prologue' % spec.name, 'hint', None)
     # ---- assemble ----
@@ -991,10 +1032,27 @@ def generate(vc_path, canary=False):
     _cache.clear()
     lines = []
 
+    defines = set()
+
     def slurp(path, depth=0):
+        # @@define NAME / @@ifdef NAME / @@ifndef NAME / @@endif: a shared include file can leave a section out for
+        # a unit that brings its own (e.g. unit `unify` verifies the real SMap instead of the opaque stub)
+        skip = []
         for ln in open(path).read().split('\n'):
-            if ln.strip().startswith('@@include'):
-                inc = ln.strip().split(None, 1)[1]
+            st = ln.strip()
+            if st.startswith('@@ifdef') or st.startswith('@@ifndef'):
+                name = st.split(None, 1)[1]
+                skip.append((name in defines) != st.startswith('@@ifdef'))
+                continue
+            if st == '@@endif':
+                skip.pop()
+                continue
+            if any(skip):
+                continue
+            if st.startswith('@@define'):
+                defines.add(st.split(None, 1)[1])
+            elif st.startswith('@@include'):
+                inc = st.split(None, 1)[1]
                 slurp(os.path.join(os.path.dirname(vc_path), inc), depth + 1)
             else:
                 lines.append(ln)
